@@ -650,10 +650,60 @@ def run(repo, rep, tier):
             '_validate_MaxObjectCount_OpenPull', '_validate_context',
             '_validate_MaxObjectCount_Iter', '_validate_OperationTimeout')))
     pull_kinds_rule(repo, rep, r6, mp)
+    pull_answers_come_from_the_context(repo, rep, mp)
     from .c13 import adapters_forward_every_filter
     adapters_forward_every_filter(
         repo, rep, 'C14.R16', lambda n: n[7:].startswith(
             ('Open', 'Pull', 'Close')), 10)
+
+
+def pull_answers_come_from_the_context(repo, rep, mp):
+    """C14.R17: a Pull handler of the mock server answers only through
+    _pull_response(), which looks the context up (unknown, exhausted or
+    closed contexts are refused), checks its namespace and its pull kind
+    and decides end-of-sequence.  A return path that builds the answer
+    itself (e.g. a short cut for MaxObjectCount=0) accepts a context that
+    no longer exists and reports eos=FALSE for it: a client polling with
+    keep-alive pulls never terminates, and a closed session still
+    "answers"."""
+    from ..inline import Flat
+    from ..paths import return_paths
+    r17 = rep.rule('C14.R17', 'every answer of a Pull handler is produced by '
+                   '_pull_response()')
+    n = 0
+    for name, f in sorted(mp.methods.items()):
+        if not name.startswith('Pull'):
+            continue
+        n += 1
+        r17.sites += 1
+        r17.functions.add(f.fq)
+        ff = Flat(f, keep=('_pull_response',), aliases=True)
+        paths = return_paths(ff, max_paths=64, inline=False)
+        if not paths:
+            raise AnalysisError('%s: return paths not enumerable' % name)
+        bad = []
+        for p_ in paths:
+            v = p_.resolve(p_.value) if p_.value is not None else None
+            ok = isinstance(v, ast.Call) and \
+                dotted(v.func) == 'self._pull_response'
+            if not ok:
+                bad.append(p_)
+        r17.ob(not bad, name, {'return_paths': len(paths)})
+        for p_ in bad[:1]:
+            st = p_.ret_stmt if p_.ret_stmt is not None else f.node
+            rep.finding(r17, f.qualname, norm(st, 60), 'answer-without-'
+                        'context', MAIN, getattr(st, 'lineno',
+                                                 f.node.lineno),
+                        '%s returns %s on a path that has not gone through '
+                        '_pull_response(): the enumeration context is not '
+                        'looked up, so an exhausted, closed or unknown '
+                        'context is answered instead of being refused with '
+                        'CIM_ERR_INVALID_ENUMERATION_CONTEXT'
+                        % (name, norm(p_.value, 50)
+                           if p_.value is not None else 'None'))
+    if n != 3:
+        raise AnalysisError('expected 3 server-side Pull operations, found '
+                            '%d' % n)
 
 
 def pull_kinds_rule(repo, rep, r6, mp):
